@@ -38,8 +38,8 @@ CHECKS = {
     "C10": dict(text="one Short/Long item is constrained to be the help (version) flag, everything else symbolic; Z3 shows the class is Stdout and the (cut) help renderer receives the path/Info of the innermost entered subcommand",
                 note="bounds 1..3 argv words quick / ..4 thorough, 14 grammars; the ambiguity exception of run_inner is outside the token layer; one known finding (see known_findings.json)",
                 tech=MIRSYM + ", outcome-class obligations", ref="DESIGN.md 4/C10"),
-    "C11": dict(text="in-process clause only: OptionParser::run executed from MIR with current_args / process::exit / print macros as recording models: the program body is reached iff the run yields a value (and nothing is printed), otherwise exactly one print to stdout with status 0 (help/version/completion) or to stderr with status 1 (failure); ParseFailure::exit_code on all variants. One concrete argv per path is additionally pushed through a REAL process running run() (supporting evidence)",
-                note="the clause 'a real process behaves like run_inner for every OS argv (non-UTF-8 through execve, argv[0] -> name)' is outside symbolic execution and is NOT claimed; message non-emptiness is not decided (rendering cut); bounds <=3 argv words quick / <=4 thorough, 4 grammars",
+    "C11": dict(text="in-process clause only: OptionParser::run executed from MIR with current_args / process::exit / print macros as recording models: the program body is reached iff the run yields a value (and nothing is printed), otherwise exactly one print to stdout with status 0 (help/version/completion) or to stderr with status 1 (failure); ParseFailure::exit_code on all variants; Args::current_args executed from MIR on a symbolic argv[0] path: the application name is its file name. One concrete argv per path is additionally pushed through a REAL process running run() (supporting evidence)",
+                note="the clause 'a real process behaves like run_inner for every OS argv (non-UTF-8 through execve)' is outside symbolic execution and is NOT claimed beyond the per-path real-process validation; message non-emptiness is not decided (rendering cut); bounds <=3 argv words quick / <=4 thorough, 4 grammars",
                 tech=MIRSYM + ", effect-recording models", ref="DESIGN.md 4/C11"),
     "C12": dict(text="the Meta tree is the symbolic input: bounded trees whose node kinds (And/Or/Optional/Required/Many/Adjacent/Subsection/Suffix/CustomUsage/Skip) and leaf kinds (flag/argument/positional/command, with or without help) are chosen through the solver; append_meta, grouping, de-duplication, write_help_item*, the Doc builders and render_console are executed from MIR and the rendered text is checked: every visible item listed exactly once with name, metavariable and help, nothing hidden / no help-less positional, CustomUsage changes nothing; per primitive the shown name is the first declared one and is accepted; descr/usage/header/items/footer order on real grammars",
                 note="bounds: depth <=2, <=2 inner nodes quick (3 thorough), unique leaf names; usage-line normalisation not asserted; BTreeSet and Debug keys modelled injectively",
